@@ -98,11 +98,18 @@ def run(ctx):
             bad = tags.get("PARBAD", [None])[0]
             rp = {"broken": "correspondence gen/C11/%s: model_and_implementation_agree (ParPure.v vs PhaseDiagram::pure / par_pure)" % f["file"],
                   "config": f["config"], "t_min": f["t_min"], "t_min_over_tc": f["t_min_over_tc"], "npoints": f["npoints"],
+                  "solver_options": f.get("solver_options"), "initial_critical_temperature": f.get("initial_critical_temperature"),
+                  "obligation": "strict: the model predicts the returned grid points for every chunk size" if f.get("strict") else
+                                "non-default options / failed call: both results laid out on the default-options grid, ending in the critical point",
+                  "pure_outcome": f.get("pure_outcome"),
                   "grid": f["grid"], "grid_points_that_converge_without_guess": f["converges_without_guess"],
                   "model_pure_indices": tags.get("PURE", [None])[0], "observed_pure_indices": f["observed_pure"],
                   "coq_error": V.coq_error(r["out"]) if r else "no result"}
             if isinstance(bad, list) and bad:
-                k, obs, mdl = bad[0]
+                if f.get("strict"):
+                    k, obs, mdl = bad[0]
+                else:
+                    (k, obs), mdl = bad[0], None
                 rp["first_mismatch"] = {"chunksize": k, "par_pure_returned_grid_indices": obs, "model_par_pure_grid_indices": mdl,
                                         "threads": [c["threads"] for c in f["cases"] if c["chunksize"] == k and c["returned_grid_indices"] == obs][:6]}
             ff = pp.get("first_failure")
@@ -234,6 +241,20 @@ def run(ctx):
         V.violation(ctx, "the tuples computed for the cache are not projections of one jet: relative spread %.3g" % worst_cons,
                     {"broken": "oracle consistency (hypothesis of C11_cache_refines_jet)", "samples": cons_samples}, found_input=False)
 
+    # ---- consistency of the oracle over all model families (hypothesis of the theorems; a difference is a history dependence)
+    sweep = impl.get("consistency_sweep") or {}
+    for fl in sweep.get("failures", [])[:3]:
+        V.violation(ctx, "history-dependent value on %s: after [%s] the request %s returns %r, a fresh state returns %r (rel. %s): "
+                    "the dual number types do not deliver the same derivative" % (fl["model"], fl["history"], fl["request"], fl["after_history"],
+                                                                                 fl["fresh_state"], fl["rel_dev"]),
+                    {"broken": "oracle consistency sweep (hypothesis `consistent` of C11_cache_refines_jet; observable by "
+                               "C11_byproduct_first_of_second_observable / C11_byproduct_eps2_of_mixed_observable), tolerance %g relative" % TOL_HIST,
+                     "failing": {"model": fl["model"], "state_TVN": fl["state_TVN"], "history": fl["history"], "rel_dev": fnum(fl["rel_dev"]),
+                                 "detail": fl}}, found_input=bool(fl.get("reproduced_on_state")))
+    for pn in (impl.get("panics") or []) + sweep.get("panics", []):
+        V.violation(ctx, "the implementation panicked (%s, %s): %s" % (pn.get("config"), pn.get("where"), str(pn.get("panic"))[:200]),
+                    {"broken": "panic of the code under test", "failing": pn}, found_input=True)
+
     pp = impl.get("par_pure")
     if pp:
         w = fnum(pp["worst_rel"])
@@ -281,8 +302,9 @@ def run(ctx):
                        "model_vs_implementation": "exact (bit patterns, map contents, counters); responses read through public getters within 4 ulp"},
         "support_search": {"level": "exploration (not counted among obligations)",
                            "thread_stress_runs": stress_runs, "thread_stress_responses": stress_resp,
-                           "par_pure": {k: pp[k] for k in ("runs", "states_compared", "grids", "grids_with_failing_points",
-                                                           "failing_grid_points", "worst_rel", "samples")} if pp else None},
+                           "oracle_consistency_sweep": {k: sweep.get(k) for k in ("configurations", "states", "comparisons", "worst_rel", "worst_case", "per_config")},
+                           "par_pure": {k: pp[k] for k in ("runs", "runs_with_non_default_options", "states_compared", "grids", "grids_with_failing_points",
+                                                           "failing_grid_points", "outcomes", "worst_rel", "samples")} if pp else None},
         "samples": samples,
         "rule": "exhaustive: every sequence of length <= max_len over the complete request alphabet (Zeroth, First d, Second d, SecondMixed d1 d2, "
                 "Third d; d in DV, DT, DN i) on a fresh State; random: pool histories of 1-50 primitive requests with clone and public getters, "
